@@ -25,7 +25,7 @@ for id in $ids; do
 done
 # the fine flavour (access-level preemption) for the properties ./check runs it for
 if [ -x build/fine/vsim ]; then
-for id in C03 C04 C06 C07 C08 C09 C10 C18; do
+for id in C01 C02 C03 C04 C06 C07 C08 C09 C10 C18; do
   build/fine/vsim check $id --scale $scale --workers 3  --seed 424242 --no-corpus --no-evidence --dump-fps build/selftest/$id.fa >/dev/null 2>&1
   build/fine/vsim check $id --scale $scale --workers 16 --seed 424242 --no-corpus --no-evidence --dump-fps build/selftest/$id.fb >/dev/null 2>&1
   n=$(wc -l < build/selftest/$id.fa)
